@@ -1,7 +1,7 @@
 SPECIFICATION Spec
 CONSTANTS
   MaxFlat = 3
-  MaxRepl = 2
+  MaxRepl = 1
   Valid <- ToyValid
   Parse <- ToyParse
   InitTexts <- ValidTexts
@@ -17,3 +17,5 @@ INVARIANT SpliceRoundTrip
 INVARIANT ClipInRange
 INVARIANT FlatRoundTrip
 PROPERTY StepLaw
+ACTION_CONSTRAINT CountCalls
+POSTCONDITION AllKindsTaken
